@@ -137,4 +137,34 @@ theorem storePrimes_narrow (e : Env) (vmax start stop : ℕ) (hss : start ≤ st
   unfold storePrimes
   rw [if_neg (by omega), if_neg (by omega), if_pos (by omega)]
 
+/-- the table as the function `prime : ℕ → ℕ` the phi.cpp model (`PhiTop.prime`, `callOK_realTop`) reads: `primes[i]`, 0 outside / on error -/
+def genNPrimesFn (e : Env) (vmax a nthHint : ℕ) : ℕ → ℕ := fun i =>
+  (match pcGenerateNPrimes e vmax a nthHint with | .ok l => l | .error _ => []).getD i 0
+
+/-- **the hypotheses `hp0` / `hp` of `callOK_realTop` discharged**: for `a ≤ π(N)` with `N` inside `uint64_t` and the element type (phi.cpp:
+    `a ≤ π(√x)`, `N = √x`), the vector `generate_n_primes<T>(a)` has `primes[0] = 0` and `primes[i] = p i` for `1 ≤ i ≤ a` (also `a = 0`) -/
+theorem genNPrimesFn_spec (e : Env) (he : GenSpec e) (vmax a nthHint N : ℕ) (ha : a ≤ Nat.primeCounting N) (hN : N ≤ umax)
+    (hNv : N ≤ vmax) :
+    pcGenerateNPrimes e vmax a nthHint = .ok (0 :: firstNPrimes a) ∧
+    genNPrimesFn e vmax a nthHint 0 = 0 ∧ ∀ i, 1 ≤ i → i ≤ a → genNPrimesFn e vmax a nthHint i = Spec.p i := by
+  have hok : pcGenerateNPrimes e vmax a nthHint = .ok (0 :: firstNPrimes a) := by
+    by_cases h0 : a = 0
+    · subst h0; rfl
+    · have hp : Spec.p a ≤ N := (Spec.p_le_iff (by omega)).2 ha
+      exact ((pcGenerateNPrimes_iff e he vmax a nthHint (by omega) (by omega)).1 (by omega))
+  refine ⟨hok, ?_, fun i hi hia => ?_⟩
+  · unfold genNPrimesFn; rw [hok]; rfl
+  · unfold genNPrimesFn; rw [hok]
+    obtain ⟨j, rfl⟩ : ∃ j, i = j + 1 := ⟨i - 1, by omega⟩
+    unfold firstNPrimes
+    simp [List.getD, show j < a by omega]
+
+/-- the hand-written branch of `store_primes` in isolation: asking for `[2^64-59, 2^64-1]` returns the last 64-bit prime alone (the
+    iterator is started, its first buffer ends above `limit = 2^64-60`, nothing is copied from it, `maxPrime64` is appended) -/
+theorem storePrimes_last (e : Env) (he : GenSpec e) : storePrimes e umax maxPrime64 umax = .ok [maxPrime64] := by
+  obtain ⟨l, h, hP⟩ := storePrimes_correct e he umax maxPrime64 umax (by unfold maxPrime64 umax; omega) (le_refl _) (le_refl _)
+  have h1 := primesIn_singleton_max umax (by unfold maxPrime64 umax; omega) (le_refl _)
+  rw [show maxPrime64 - 1 + 1 = maxPrime64 by unfold maxPrime64; omega] at h1
+  rw [h, hP.unique h1]
+
 end Pc.It
